@@ -1,3 +1,5 @@
+//go:build all || c02 || c04 || c14
+
 package props
 
 import (
